@@ -1,6 +1,6 @@
 (* C18 — The server buffer allocator is invisible. Theorems only; proofs in Proofs/AllocP.v *)
 From Coq Require Import List Bool Arith.
-From Sftp Require Import Sched.Alloc Proofs.AllocP.
+From Sftp Require Import Sched.Alloc Sched.AllocTrace Proofs.AllocP Proofs.AllocTraceP.
 Import ListNotations.
 
 (* for every sequence of GetPage / ReleasePages / Free (every request stream and schedule induces one): a page is never
@@ -26,6 +26,21 @@ Print Assumptions C18_no_reuse_before_release.
 Theorem C18_released_means_unused : forall a oid, pages_of oid (used (release_pages a oid)) = [].
 Proof. exact released_means_unused. Qed.
 Print Assumptions C18_released_means_unused.
+
+(* ===== the tie to allocator.go: replay of the allocator's own event trace (family alt) =====
+   The instrumented allocator reports, inside its mutex, every GetPage with the identity of the page it returned, every
+   ReleasePages and Free. A trace `areplay_trace` accepts is a run of the model that hands out the same pages: *)
+Theorem C18_accepted_trace_is_model_run : forall tr a, areplay_trace tr = inl a ->
+  a = fold_left astep (map aop_of tr) alloc0 /\ NoDup (all_pages a).
+Proof. exact accepted_alloc_trace. Qed.
+Print Assumptions C18_accepted_trace_is_model_run.
+
+(* ... so the page each recorded GetPage handed out was lent to nobody at that moment *)
+Theorem C18_accepted_get_not_in_use : forall pre oid p post a,
+  areplay_trace (pre ++ AEvG oid p :: post) = inl a ->
+  ~ In p (all_used (fold_left astep (map aop_of pre) alloc0)).
+Proof. exact accepted_get_not_in_use. Qed.
+Print Assumptions C18_accepted_get_not_in_use.
 
 (* PARTIAL: byte-identity of the response streams with and without the allocator follows from the three facts above
    together with C02's ordering, but that composition (responses read their page at send time) is tied by the oracle of
